@@ -5,7 +5,7 @@ Steps (DESIGN.md section 2): rebuild the harness from /repo's working tree, rege
 source-derived Coq tables, re-check the property's theorems (full .vo build + Print Assumptions
 audit), run the correspondence between the Coq model and the implementation, write evidence,
 apply the violation protocol."""
-import argparse, importlib, json, os, random, sys, time, traceback
+import argparse, importlib, json, os, random, re, sys, time, traceback
 
 sys.path.insert(0, os.path.dirname(os.path.abspath(__file__)))
 sys.path.insert(0, os.path.dirname(os.path.dirname(os.path.abspath(__file__))))
@@ -87,6 +87,16 @@ def main():
                     tie_breaks.append({"kind": "proof", "what": "pinned theorem file of %s does not check or uses a non-allowed axiom" % prop,
                                        "theorem": META["props"], "detail": {"not_allowed": au["not_allowed"], "missing_print": au["missing_print"],
                                                                            "output": au["output"][-2000:]}})
+        # thorough tier: independent re-check of the compiled theorem file and everything it depends on
+        if ctx.thorough and META.get("props") and not any(t["kind"] == "proof" for t in tie_breaks):
+            mod_name = "V." + META["props"][:-2].replace("/", ".")
+            rc, out = core.sh(["coqchk", "-silent", "-o", "-Q", core.COQ, "V", mod_name], timeout=3000)
+            m = re.search(r"\* Axioms:(.*?)\n\s*\n\s*\* Constants/Inductives relying on type-in-type:(.*?)\n\s*\n", out, re.S)
+            chk_axioms = [a.strip() for a in (m.group(1) if m else "").strip().split("\n") if a.strip() and a.strip() != "<none>"]
+            bad_ax = [a for a in chk_axioms if a.split()[0].rstrip(":") not in core.ALLOWED_AXIOMS and a.split(".")[-1].split()[0] not in core.ALLOWED_AXIOMS]
+            ctx.notes.append("coqchk: rc=%d axioms=%s" % (rc, chk_axioms or "none"))
+            if rc != 0 or bad_ax or "relying on type-in-type: <none>" not in re.sub(r"\s+", " ", out):
+                tie_breaks.append({"kind": "proof", "what": "coqchk does not accept %s or reports unexpected axioms" % mod_name, "theorem": mod_name, "detail": out[-2000:]})
         ctx.proof_broken = [t for t in tie_breaks if t["kind"] in ("proof", "translator")] or None
 
         # 4. correspondence (also the search for a failing input when a tie is broken)
